@@ -844,7 +844,16 @@ func (ig *injectorGen) structProviderCall(lname string, c *call) {
 	if _, ok := c.out.(*types.Pointer); ok {
 		ig.p("&")
 	}
-	ig.p("%s{\n", ig.g.qualifiedID(c.pkg.Name(), c.pkg.Path(), c.name))
+	elem := c.out
+	if p, ok := elem.(*types.Pointer); ok {
+		elem = p.Elem()
+	}
+	if n, ok := elem.(*types.Named); ok && n.TypeArgs().Len() > 0 {
+		// An instantiated generic struct is written with its type arguments.
+		ig.p("%s{\n", types.TypeString(elem, ig.g.qualifyPkg))
+	} else {
+		ig.p("%s{\n", ig.g.qualifiedID(c.pkg.Name(), c.pkg.Path(), c.name))
+	}
 	for i, a := range c.args {
 		ig.p("\t\t%s: ", c.fieldNames[i])
 		if a < len(ig.paramNames) {
